@@ -1263,3 +1263,69 @@ Proof.
   destruct pk as [|p pk]; [discriminate Hp|]. exists p, pgn, src, dst, prio, [d], (p :: pk).
   split; [exact Hh|]. split; [constructor; [split; assumption | constructor]|]. split; [exact He | left; reflexivity].
 Qed.
+
+(* ---------------- C07, second sentence: frame by frame versus pre-assembled ---------------- *)
+(* a frame delivered through one of the three frame-level formats *)
+Inductive frame_input := InTcp (p : list Z) | InUsb (p : list Z) | InYd (s : list Z).
+Definition parse_frame_input (ts_ok : Z -> list Z -> bool) (i : frame_input) : result (option dec_args) :=
+  match i with InTcp p => parse_tcp p | InUsb p => parse_usb p | InYd s => parse_yd ts_ok s end.
+Inductive renders (ts_ok : Z -> list Z -> bool) (id : Z) (f : list Z) : frame_input -> Prop :=
+| R_tcp t pad : Z.land t 15 = zlen f -> renders ts_ok id f (InTcp (t :: be4 id ++ f ++ pad))
+| R_usb b2 b3 b4 pad r : (length f + length pad = 8)%nat -> renders ts_ok id f (InUsb (usb_render b2 b3 b4 id f pad r))
+| R_yd ts dir idt dts tail :
+    f <> [] -> ts_tok ts_ok 0 ts -> dir_tok dir -> tokval 16 idt = Some id ->
+    Forall2 (fun t b => tokval 16 t = Some b) dts f -> forallb is_ws tail = true ->
+    renders ts_ok id f (InYd (yd_line ts dir idt dts tail)).
+
+Lemma renders_parse ts_ok id f i : 0 <= id < 536870912 -> bytes_ok f = true -> renders ts_ok id f i ->
+  parse_frame_input ts_ok i = Ok (target id f false).
+Proof.
+  intros Hid Hb H. destruct H; cbn [parse_frame_input].
+  - apply parse_tcp_render; [lia | assumption].
+  - apply parse_usb_render; [lia | assumption].
+  - apply parse_yd_render; assumption.
+Qed.
+
+Section Assembled.
+Variable ts_ok : Z -> list Z -> bool.
+(* the fast-packet segmenter (any sequence counter) and the decoder's reassembly of the `can_data` arguments of
+   successive `_decode` calls for one (pgn, source, destination) from a fresh state: C03 / C04 provide them *)
+Variable segment : list Z -> list (list Z).
+Variable reasm : list (list Z) -> option (list Z).
+Hypothesis seg_bytes : forall payload, bytes_ok payload = true -> Forall (fun f => bytes_ok f = true) (segment payload).
+Hypothesis seg_reasm : forall payload, bytes_ok payload = true -> payload <> [] ->
+  reasm (map (@rev Z) (segment payload)) = Some (rev payload).
+
+Theorem assembled id payload inputs :
+  0 <= id < 536870912 -> bytes_ok payload = true -> payload <> [] ->
+  Forall2 (renders ts_ok id) (segment payload) inputs ->
+  let '(pgn, src, dst, prio) := extract_header id in
+  (exists datas,
+      map (parse_frame_input ts_ok) inputs = map (fun d => Ok (Some (pgn, prio, src, dst, d, false))) datas /\
+      reasm datas = Some (rev payload)) /\
+  (forall sec ms ntok ptok dtoks tail,
+      acti_ts_ok sec ms -> tokval 16 ntok = Some (acti_build src dst prio) -> tokval 16 ptok = Some pgn ->
+      Forall2 (fun t b => length t = 2%nat /\ tokval 16 t = Some b) dtoks payload -> forallb is_ws tail = true ->
+      parse_acti (acti_line sec ms ntok ptok (concat dtoks) tail) = Ok (Some (pgn, prio, src, dst, rev payload, true))) /\
+  (forall ts ptok gtok stok dtok ltok dts extra,
+      basic_ts ts_ok ts -> dec_tok ptok prio -> dec_tok gtok pgn -> dec_tok stok src -> dec_tok dtok dst ->
+      dec_tok ltok (zlen payload) -> Forall2 (fun t b => tokval 16 t = Some b) dts payload ->
+      Forall (fun t => nocomma t /\ all_ascii t = true) extra -> dts ++ extra <> [] ->
+      parse_basic ts_ok (basic_line ts ptok gtok stok dtok ltok dts extra) true
+      = Ok (Some (pgn, prio, src, dst, rev payload, true))).
+Proof.
+  intros Hid Hb Hne HF.
+  pose proof (frontends ts_ok id payload Hid Hb) as HX.
+  destruct (extract_header id) as [[[pgn src] dst] prio] eqn:E. cbv zeta in HX.
+  destruct HX as (_ & _ & Hbasic & _ & Hacti).
+  split; [|split].
+  - exists (map (@rev Z) (segment payload)). split; [|apply seg_reasm; assumption].
+    pose proof (seg_bytes payload Hb) as Hsb. clear Hbasic Hacti.
+    induction HF as [|f i fs is Hr HF IH]; [reflexivity|].
+    inversion Hsb as [|? ? Hbf Hbfs]; subst. cbn [map].
+    rewrite (renders_parse ts_ok id f i Hid Hbf Hr). unfold target. rewrite E. cbn [mk_args].
+    f_equal. apply IH. exact Hbfs.
+  - intros. apply Hacti; assumption.
+  - intros. apply Hbasic; assumption.
+Qed.
+End Assembled.
